@@ -38,7 +38,11 @@ Leaves == {JNull, JBool(TRUE), JBool(FALSE)} \cup Ints \cup Bads \cup {JStr(s) :
 Keys == {<<97>>, <<66>>, <<97,97>>, <<>>, <<233>>, <<65535>>, <<65536>>, <<1>>, <<34>>, <<57344>>}
 Vals3 == <<JInt(FALSE, <<1>>), JInt(FALSE, <<4,2>>), JStr(<<120>>)>>
 
-Parts == {"leaf", "obj1", "obj2", "obj3", "nest", "arr"}
+\* the signing form: "signatures"/"unsigned" at the top level (removed) and below it (kept), next to keys that sort before, between
+\* and after them ("a" < "s" < "signatures" < "t" < "unsigned" < "v")
+SignKeys == {KSignatures, KUnsigned, <<97>>, <<115>>, <<116>>, <<118>>}
+SignVals == <<JObj(<<M(KSignatures, JInt(FALSE, <<1>>)), M(<<97>>, JNull)>>), JInt(FALSE, <<4,2>>), JStr(<<120>>)>>
+Parts == {"leaf", "obj1", "obj2", "obj3", "nest", "arr", "sign"}
 VARIABLES phase, part, v
 Init == phase = 0 /\ part \in Parts /\ v = JNull
 Next ==
@@ -52,10 +56,16 @@ Next ==
                            LET inner == JObj(<<M(k2, x), M(k3, JArr(<<JObj(<<M(k3, x), M(k2, JNull)>>), x>>))>>
                                              \o (IF dup THEN <<M(k2, JStr(<<100>>))>> ELSE <<>>)) IN
                            v' = JObj(<<M(<<122>>, JArr(<<inner, JArr(<<>>), JObj(<<>>)>>)), M(k1, inner)>>)
+     \/ part = "sign" /\ \E n \in 0..3, k1 \in SignKeys, k2 \in SignKeys, k3 \in SignKeys :
+                           v' = JObj(SubSeq(<<M(k1, SignVals[1]), M(k2, SignVals[2]), M(k3, SignVals[3])>>, 1, n))
      \/ part = "arr" /\ \E x \in SmallLeaves, y \in SmallLeaves : v' \in {JArr(<<>>), JArr(<<x>>), JArr(<<x, y>>), JArr(<<JArr(<<x>>), y>>)}
 
 \* model theorems
 ThmValueOnly == phase = 1 => CanonOfNormalize(v)
+\* signing an object: the removed members do not influence the bytes, everything else does
+ThmSigning == (phase = 1 /\ v.t = "obj" /\ Ok(v)) =>
+  /\ SigningBytes(v) = SigningBytes(SigningForm(v))
+  /\ ((\A i \in 1..Len(v.mem) : v.mem[i].k \notin {KSignatures, KUnsigned}) => SigningBytes(v) = Canon(v))
 ThmNormalizeIdem == phase = 1 => Normalize(Normalize(v)) = Normalize(v)
 
 RECURSIVE CJ(_)
@@ -69,5 +79,6 @@ CJ(x) == CASE x.t = "obj" -> [o |-> [i \in 1..Len(x.mem) |-> [k |-> x.mem[i].k, 
 
 Emit == phase = 1 =>
   PrintT(<<"CASE", ToJson([part |-> part, v |-> CJ(v), ok |-> Ok(v), strict |-> OkStrict(v), bytes |-> IF Ok(v) THEN Canon(v) ELSE <<>>,
+                             sbytes |-> IF Ok(v) /\ v.t = "obj" THEN SigningBytes(v) ELSE <<>>,
                              norm |-> CJ(Normalize(v))])>>)
 =============================================================================
